@@ -351,4 +351,54 @@ PROPS = {
         "min_ratio": {"counter_num": "evaluator_completed", "counter_den": ["evaluator_completed", "evaluator_panicked"], "min": 0.3},
         "budget": {"quick": 240, "thorough": 1200},
     },
+    "C14": {
+        "claim": "Trace monitor over compilation: every constant initialiser calls a logging host function; the log recorded "
+                 "while FileTree::compile runs must contain each constant exactly once and after all constants it depends on "
+                 "(directly or through functions), nothing may be logged after compile returned, getters must observe the "
+                 "values implied by the generated graph, and graphs with an injected cycle or context read must be rejected "
+                 "with an empty log.",
+        "design_ref": "DESIGN.md §4 C14",
+        "level_note": "The oracle is the generated dependency graph itself (any topological order is accepted). Sampled graphs.",
+        "technique": "event-log monitor (init events during compile) checked against the generated dependency DAG",
+        "rule": "random DAGs of 2-12 constants and 0-8 functions (edges by direct mention, nested block, if branch, method "
+                "call on a constant, function call), printed in random declaration order over 1-4 modules with paths or "
+                "imports; 20% with an injected cycle (self, mutual, through 1-2 functions), 20% with a context read (direct or "
+                "through 1-2 functions), with and without a context type on the runtime; every case is non-trivial",
+        "jobs": [
+            {"family": "constorder", "flavour": "release", "cases": {"quick": 12000, "thorough": 300000}},
+            {"family": "constorder", "flavour": "debug", "cases": {"quick": 1500, "thorough": 30000}, "args": {"stream": "debug"}},
+        ],
+        "assumptions": ["the host function init(k) is the only way a constant initialiser becomes observable"],
+        "min_tags": 25,
+        "budget": {"quick": 240, "thorough": 1200},
+    },
+    "C09": {
+        "claim": "Independent-decoder monitor: literal spellings generated from the documented grammar are compiled into "
+                 "scripts that return them, and the value is compared with hand-written decoders (std parsers for numbers "
+                 "and addresses); ALL operator sequences up to length 3 (2379) and sampled longer ones are grouped by a "
+                 "reference precedence climber: well-typed ones are compiled as written and fully parenthesised and both must "
+                 "return the reference value on 16 operand vectors, chains of comparisons / mixed && || must be parse errors.",
+        "design_ref": "DESIGN.md §4 C09",
+        "level_note": "Exhaustive over operator sequences of length <= 3; literal spellings, identifiers, comment placements "
+                      "and longer sequences are sampled. f32 literals accept both the directly rounded value and the value "
+                      "rounded through f64; spellings the documentation does not list (10.e5, embedded IPv4 in IPv6) are not "
+                      "generated.",
+        "technique": "independent literal decoders + reference precedence climber compared with compiled scripts",
+        "rule": "cases 0..2378 = every sequence of 1-3 binary operators over the 13 operators with random unary prefixes; then "
+                "sampled: operator sequences of length 4-6, integer (underscores, hex, suffix, full range of the type), float "
+                "(fraction, exponent, suffix), string and char (every escape, continuation), f-string ({{ }} escapes, Unicode "
+                "text), IPv4/IPv6/ASN/prefix literals, identifiers (XID start/continue from long-stable blocks, non-XID and "
+                "keyword negatives), comments and shebang at token boundaries; non-trivial = at least one value or verdict "
+                "compared",
+        "jobs": [
+            {"family": "grammar", "flavour": "release", "cases": {"quick": 30000, "thorough": 600000}},
+            {"family": "grammar", "flavour": "debug", "cases": {"quick": 4000, "thorough": 40000}, "args": {"stream": "debug"}},
+            {"family": "corpus", "flavour": "debug", "cases": {"quick": 0, "thorough": 0}, "args": {"prop": "C09"}, "shards": 1},
+        ],
+        "exhaustive": False,
+        "assumptions": ["Rust's str::parse for integers/floats and std::net / inetnum parsing are the documented meaning of "
+                        "the numeric and address spellings"],
+        "min_tags": 30,
+        "budget": {"quick": 240, "thorough": 1500},
+    },
 }
